@@ -137,7 +137,9 @@ def impl_kernel(job):
 def impl_run(job):
     scan, blanks = job
     from csvpath import CsvPath
-    name = f"f{abs(hash((scan, tuple(blanks)))) % 10**9}.csv"
+    # a few file names per worker process, reused from case to case: the same path holds other records each time, so anything a
+    # process remembers about a path (line totals, the known end used by '*' and 'N*') would show
+    name = f"f{os.getpid()}_{abs(hash((scan, tuple(blanks)))) % 3}.csv"
     with open(name, "w", newline="") as fh:
         for i, b in enumerate(blanks):
             fh.write("\n" if b else f"r{i},x\n")
